@@ -56,7 +56,7 @@ def work(task):
             prog.fact(f"{backend}|{kind}_index|same", v0.index_map(kind) == v1.index_map(kind), "LayoutChanged",
                       f"{kind} index map changes with remove_unused: {v0.index_map(kind)} vs {v1.index_map(kind)}")
         dom = checks.model_domain(prog, m)
-        for fn in ["rhs"] + SCHEMES:
+        for fn in ["rhs", "monitor_values"] + SCHEMES:
             r0 = checks.sym_function(prog, v0, fn, label=f"{backend}|{fn}|keep|exec")
             r1 = checks.sym_function(prog, v1, fn, label=f"{backend}|{fn}|remove|exec")
             if r0 is None or r1 is None:
